@@ -907,10 +907,14 @@ class NestedContainer(Task, Iterable):
         return (
             type(self).__name__,
             self.klass,
-            sorted(tokenize(a) for a in self.args),
+            self._tokenize_args(),
         )
 
-        return super().__dask_tokenize__()
+    def _tokenize_args(self):
+        # Element order is part of the identity of ordered containers
+        from dask.tokenize import tokenize
+
+        return [tokenize(a) for a in self.args]
 
     @staticmethod
     def to_container(*args, constructor):
@@ -930,6 +934,11 @@ class Tuple(NestedContainer):
 
 class Set(NestedContainer):
     constructor = klass = set
+
+    def _tokenize_args(self):
+        from dask.tokenize import tokenize
+
+        return sorted(tokenize(a) for a in self.args)
 
 
 class Dict(NestedContainer, Mapping):
@@ -985,6 +994,12 @@ class Dict(NestedContainer, Mapping):
             )
             new_args.append(new_arg)
         return type(self)(new_args)
+
+    def _tokenize_args(self):
+        # Insertion order is irrelevant but the pairing of keys and values is not
+        from dask.tokenize import tokenize
+
+        return sorted(tokenize(kv) for kv in batched(self.args, 2, strict=True))
 
     def __iter__(self):
         yield from self.args[::2]
